@@ -102,6 +102,8 @@ theorem Kernel.run_one_cell_change (k : Kernel) (dr dc : Nat) (hw : readsWithin 
   apply hdiff
   omega
 
+theorem option_map_id {α : Type} (o : Option α) : o.map id = o := by cases o <;> rfl
+
 /-! ### quarter turn -/
 
 /-- the raster turned a quarter turn counter-clockwise (`np.rot90`): `new[i, j] = old[j, cols-1-i]`,
